@@ -54,6 +54,10 @@ func lockBalanceRuleOn(r *Report, p *Prog, e *LockEngine, rule string, floor int
 			r.OK(rule, construct, p.Pos(fn.Pos()), "every return leaves the lock(s) it acquired in the same state")
 			continue
 		}
+		if why := lbOpaque(e, fn); why != "" {
+			r.Trivial(rule, construct, p.Pos(fn.Pos()), "not examined: "+why)
+			continue
+		}
 		if why, ok := conditional[name]; ok {
 			r.OK(rule, construct, p.Pos(fn.Pos()), "conditional acquire by contract: "+why)
 			continue
@@ -161,7 +165,7 @@ func sharedLockBalance(id string, c *Ctx) {
 		lockBalanceRuleOn(fr, fp, fe, rule, 1, []string{""}, nil, nil)
 	})
 	if !strings.Contains(c.R.Explanation, "LB-lock-balance") {
-		c.R.Explanation += " LB-lock-balance (shared rule): in " + strings.Join(pkgs, ", ") + " a function that acquires a lock itself leaves it in the same state on every return (after its deferred calls): a lock still held on some returns only — an early return that forgets the unlock — is reported when nothing returned lets the caller tell the exits apart (no results, or a non-nil error exactly on the exit that keeps the lock); a lock kept exactly on the nil-error exit is a conditional acquire (accepted), other disagreeing exits with results are UNDECIDED unless the function is in the reviewed list (3 functions of concurrency/lock); a lock some path releases before acquiring it is the caller's (unlock/relock window) and not examined; no floor (code without mutexes has nothing to check) — the fixture is the positive example on every run. Panicking exits and locks the engine cannot resolve are not examined."
+		c.R.Explanation += " LB-lock-balance (shared rule): in " + strings.Join(pkgs, ", ") + " a function that acquires a lock itself leaves it in the same state on every return (after its deferred calls): a lock still held on some returns only — an early return that forgets the unlock — is reported when nothing returned lets the caller tell the exits apart (no results, or a non-nil error exactly on the exit that keeps the lock); a lock kept exactly on the nil-error exit is a conditional acquire (accepted), other disagreeing exits with results are UNDECIDED unless the function is in the reviewed list (3 functions of concurrency/lock); a lock some path releases before acquiring it is the caller's (unlock/relock window) and not examined; nor is a function with a lock operation the engine cannot attribute, with an Unlock method value or a call through a function value held in memory (the release may hide there), nor a closure that runs as part of its parent (only top-level functions and goroutine bodies are judged); no floor (code without mutexes has nothing to check) — the fixture is the positive example on every run. Panicking exits and locks the engine cannot resolve are not examined."
 	}
 }
 
